@@ -71,6 +71,10 @@ def valid(params):
             pk, pt, pa = params[i - 1]
             if pk != 'p' or pt not in COUNT_TYPES:
                 return False
+            if t == 'byte':
+                # D13: the library classifies std::byte as not trivially swappable (std::swap is found by ADL), and
+                # ParameterTraits<VaryingSize<...>> offers no swap: reference swap is outside such a list's domain
+                return False
     return True
 
 
